@@ -87,6 +87,9 @@ type logger struct {
 	// reaches nobody, in particular not a broader logger or root.
 	Level  string
 	Silent bool // the range does not admit INFO
+	// ViaProp: the tags attribute is written as a ${property} placeholder and the list itself sits
+	// in a top-level property, as any plugin attribute may be.
+	ViaProp bool
 }
 
 type cfg struct {
@@ -112,9 +115,12 @@ func renderTags(t *rapid.T, tags []string, label string) string {
 func genCfg(t *rapid.T) cfg {
 	var c cfg
 	n := rapid.IntRange(1, 4).Draw(t, "nloggers")
+	nameStride := rapid.SampledFrom([]int{0, 4}).Draw(t, "nameStride") // 0: lg0 zeta a1 rootx; 4: lg0 svc ro rootx
 	used := map[string]bool{}
 	for i := 0; i < n; i++ {
-		lg := logger{Name: fmt.Sprintf("lg%d", i)}
+		// logger names on either side of "root" in every order Refresh might walk them in (the first
+		// one stays lg0: a handle of that name exists)
+		lg := logger{Name: []string{"lg0", "zeta", "a1", "rootx", "ro", "svc"}[(i*(1+nameStride))%6]}
 		k := rapid.IntRange(1, 5).Draw(t, "ntags")
 		for j := 0; j < k; j++ {
 			var s string
@@ -198,6 +204,9 @@ func genCfg(t *rapid.T) cfg {
 		if c.Loggers[i].Raw == "" && len(c.Loggers[i].Tags) > 0 {
 			c.Loggers[i].Raw = renderTags(t, c.Loggers[i].Tags, fmt.Sprintf("l%d", i))
 		}
+		if c.Loggers[i].Raw != "<omit>" {
+			c.Loggers[i].ViaProp = rapid.IntRange(0, 3).Draw(t, fmt.Sprintf("viaProp%d", i)) == 0
+		}
 	}
 	return c
 }
@@ -210,6 +219,10 @@ func (c cfg) toMap() map[string]string {
 		m["logger."+lg.Name+".appenderRef.ref"] = "rec" + lg.Name
 		if lg.Raw != "<omit>" {
 			m["logger."+lg.Name+".tags"] = lg.Raw
+			if lg.ViaProp {
+				m["logger."+lg.Name+".tags"] = "${tagsof" + lg.Name + "}"
+				m["tagsof"+lg.Name] = lg.Raw
+			}
 		}
 		if lg.Level != "" {
 			m["logger."+lg.Name+".level"] = lg.Level
@@ -232,7 +245,7 @@ func (c cfg) toMap() map[string]string {
 func (c cfg) desc() string {
 	var parts []string
 	for _, lg := range c.Loggers {
-		parts = append(parts, fmt.Sprintf("%s:%q level=%q", lg.Name, lg.Raw, lg.Level))
+		parts = append(parts, fmt.Sprintf("%s:%q level=%q viaProperty=%v", lg.Name, lg.Raw, lg.Level, lg.ViaProp))
 	}
 	return fmt.Sprintf("loggers{%s} root=%v rootKind=%s rootTags=%q fault=%q", strings.Join(parts, " "), c.Root, c.RootKind, c.RootRaw, c.Fault)
 }
